@@ -1,4 +1,5 @@
 import Mp4ff.Model.Walk
+import Mp4ff.Model.SencSize
 import Mp4ff.Driver.Util
 namespace Mp4ff.Driver.C04
 open Mp4ff Mp4ff.Walk Mp4ff.Driver
@@ -9,6 +10,13 @@ def dispatch (op : String) (args : List String) : Option String :=
       let bs ← fromHex h
       pure (match walk bs with
         | some ns => "ok " ++ (if ns.isEmpty then "-" else typesAll ns)
+        | none => "err")
+  | "sencsize", [iv, count, left] => do
+      let iv ← iv.toNat?
+      let count ← count.toNat?
+      let left ← left.toNat?
+      pure (match SencSize.parse iv count left with
+        | some (v, n) => s!"ok {v} {n}"
         | none => "err")
   | _, _ => none
 
